@@ -665,6 +665,8 @@ def run(rep):
         rep.add_bounded(f"{P}/bounded.{res['name']}", res['ok'], res['detail'], replay={'kind': 'c03.native_selection', 'name': res['name']})
     for res in R03.model_limit_cases():
         rep.add_bounded(f"{P}/bounded.{res['name']}", res['ok'], res['detail'], replay={'kind': 'c03.model_limits', 'name': res['name']})
+    for res in R03.query_form_cases():
+        rep.add_bounded(f"{P}/bounded.{res['name']}", res['ok'], res['detail'], replay={'kind': 'c03.query_form', 'name': res['name']})
     for res in R03.stored_format_cases():
         rep.add_bounded(f"{P}/bounded.{res['name']}", res['ok'], res['detail'], replay={'kind': 'c03.stored_format', 'name': res['name']})
     for res in R03.interpolation_cases():
